@@ -19,8 +19,11 @@ type emitter struct {
 	fn   func(repo string) (string, error)
 }
 
-var emitters = []emitter{
-	{"Describe", emitDescribe},
+// emitters register themselves from init() functions (one file per table).
+var emitters []emitter
+
+func register(name string, fn func(repo string) (string, error)) {
+	emitters = append(emitters, emitter{name, fn})
 }
 
 func main() {
